@@ -37,9 +37,40 @@ def check(ctx):
     ctx.rule("C14-H", "markers cannot influence the text: whatever add_line records about the renderer besides the line itself (any "
              "SubRenderer field other than `lines` and `pending_frags`) is recorded on every path — with and without pending "
              "markers — so that a line that received markers counts like any other line afterwards")
+    ctx.rule("C14-I", "no decision counts the elements of a line: the element vector of a TaggedLine (text pieces and markers) is "
+             "looked at only by TaggedLine's own methods, its IntoIterator and take_trailing_fragments (which moves it out) — "
+             "tests such as 'is the line still empty' go through len / is_empty(), which ignore markers")
     for rid, fn in (("C14-A", rule_a), ("C14-B", rule_b), ("C14-C", rule_c), ("C14-D", rule_d), ("C14-E", rule_e), ("C14-F", rule_f),
-                    ("C14-G", rule_g), ("C14-H", rule_h)):
+                    ("C14-G", rule_g), ("C14-H", rule_h), ("C14-I", rule_i)):
         ctx.guard(rid, fn)
+
+
+V_OK = {
+    "<render::text_renderer::TaggedLine<T> as std::iter::IntoIterator>::into_iter": "hands out all elements in order",
+    "render::text_renderer::WrappedBlock::<T>::take_trailing_fragments": "moves the marker-only word's elements out (C14-C)",
+}
+
+
+def rule_i(ctx):
+    F = ctx.facts
+    n = 0
+    for (b, bb, where, pl, acc) in field_accesses(F, "TaggedLine", "v"):
+        if b.raw.get("from_expansion") and b.kind != "Closure":
+            continue
+        root = b.root if b.kind == "Closure" else b.id
+        if root.startswith("render::text_renderer::TaggedLine::<T>::"):
+            n += 1
+            continue
+        n += 1
+        why = V_OK.get(root)
+        key = "TaggedLine.v@%s:%s" % (fn_key(b), acc)
+        if why:
+            ctx.ok("C14-I", key, site(b, bb, where), b.id, why, how="table")
+        else:
+            ctx.violation("C14-I", key, site(b, bb, where), b.id,
+                          "the element vector of a TaggedLine is accessed outside TaggedLine's own methods: a decision that depends "
+                          "on it (emptiness, length, last element) changes with the presence of a fragment marker, i.e. with an id")
+    ctx.floor("C14-I", "accesses of TaggedLine.v", n, 10)
 
 
 def rule_h(ctx):
@@ -47,7 +78,7 @@ def rule_h(ctx):
     b = F.one("SubRenderer::<D>::add_line")
     rets = [x for x in b.reachable() if b.term(x)["k"] == "return"]
     pushes = [bb for bb, t in b.calls(lambda cd, t: callee_method(t) in ("push_back", "push")) if has_field(b.atoms(t["args"][0]), SUBR, "lines")]
-    ctx.floor("C14-H", "pushes onto SubRenderer.lines in add_line", len(pushes), 2)
+    ctx.floor("C14-H", "pushes onto SubRenderer.lines in add_line", len(pushes), 1)
     n = 0
     for (bb, where, pl, acc) in b.all_places():
         if acc not in ("write", "refmut"):
@@ -399,13 +430,20 @@ def rule_c(ctx):
     takes = [(bb, t) for bb, t in al.calls(lambda cd, t: ends(cd, "std::mem::take"))
              if has_field(al.atoms(t["args"][0]), SUBR, "pending_frags")]
     pushes = al.calls(lambda cd, t: ends(cd, "TaggedLine::<T>::push"))
+    # (the push may sit in the closure of `.for_each(|elt| tl.push(elt))`)
+    cl_pushes = [(cb, t) for _x, cb in transitive_closures(F, al) for _bb, t in cb.calls(lambda cd, t: ends(cd, "TaggedLine::<T>::push"))]
     chains = al.calls(lambda cd, t: callee_method(t) == "chain")
-    if len(takes) == 1 and len(pushes) == 1 and len(chains) == 1:
+    if len(takes) == 1 and len(pushes) + len(cl_pushes) == 1 and len(chains) == 1:
         # one loop over `pending fragments .chain(line parts)`: same order
         ct = chains[0][1]
         a0, a1 = al.atoms(ct["args"][0]), al.atoms(ct["args"][1])
+        if pushes:
+            item_ok = has_call(al.atoms(pushes[0][1]["args"][1]), "Iterator>::next", "Iterator::next")
+        else:
+            cb_, t_ = cl_pushes[0]
+            item_ok = ("arg", 2) in cb_.atoms(t_["args"][1]) and bool(al.calls(lambda cd, t: callee_method(t) == "for_each"))
         okc = has_call(a0, "std::mem::take") and has_field(a0, SUBR, "pending_frags") and ("arg", 2) in a1 and \
-            not has_call(a1, "std::mem::take") and has_call(al.atoms(pushes[0][1]["args"][1]), "Iterator>::next", "Iterator::next")
+            not has_call(a1, "std::mem::take") and item_ok
         ctx.check(okc, "C14-C", "add_line:fragments-before-line-parts", al.span, al.id,
                   "the pending fragments must come first in the chained iteration, the line's own parts second")
     elif ctx.check(len(takes) == 1 and len(pushes) == 2, "C14-C", "add_line:take-and-push", al.span, al.id, "takes=%d pushes=%d" % (len(takes), len(pushes))):
@@ -567,7 +605,7 @@ def rule_f(ctx):
         ctx.check(m in EDIT_ONLY, "C14-F", "lines:%s@%s" % (m, fn_key(b)), site(b, bb, where), b.id,
                   "SubRenderer.lines is %s outside add_line: a line added this way never receives the fragment markers "
                   "waiting in pending_frags (and bypasses the at_block_end bookkeeping)" % ("grown with " + m if m in GROW else "used by %s" % m))
-    ctx.floor("C14-F", "mutable uses of SubRenderer.lines", n, 4)
+    ctx.floor("C14-F", "mutable uses of SubRenderer.lines", n, 3)
     ctx.check(grow_in_add_line >= 1, "C14-F", "add_line:grows-lines", al.span, al.id, "")
     # add_line attaches the pending markers before pushing a text line
     at = [callee_method(t) for _bb, t in al.calls()]
